@@ -115,14 +115,22 @@ def reset_session():
         pass
 
 
+import collections as _collections
+Pt = _collections.namedtuple("Pt", "a b")       # an argument value that is an instance of a tuple subclass
+
+
 def tup(x):
-    """JSON lists -> tuples (recursively) for ids and keys"""
+    """JSON lists -> tuples (recursively) for ids and keys; {"nt": [a, b]} -> Pt(a, b)"""
     if isinstance(x, list):
         return tuple(tup(i) for i in x)
+    if isinstance(x, dict) and set(x) == {"nt"}:
+        return Pt(*[tup(i) for i in x["nt"]])
     return x
 
 
 def untup(x):
+    if isinstance(x, Pt):
+        return {"nt": [untup(i) for i in x]}
     if isinstance(x, tuple):
         return [untup(i) for i in x]
     if isinstance(x, list):
@@ -475,6 +483,8 @@ def plain_real(v):
         return ("obj", "space", v._idtuple[1:])
     if isinstance(v, Model):
         return ("obj", "model")
+    if isinstance(v, tuple) and hasattr(v, "_fields"):
+        return type(v)(*[plain_real(x) for x in v])
     if isinstance(v, (list, tuple)):
         return type(v)(plain_real(x) for x in v)
     return v
